@@ -1211,18 +1211,23 @@ func (fr *Frame) applyContract(sp *FuncSpec, name string, sig *types.Signature, 
 	}
 	env.st = fr.cur.st
 	for _, c := range sp.Ensures {
+		cx := c.Expr
 		if strings.Contains(c.Src, "lastresult(") {
-			// talks about calls inside the callee: meaningful only when the callee itself is verified
-			continue
+			// conjuncts that talk about calls inside the callee are meaningful only when the callee itself is
+			// verified: drop them here (assuming less is sound), keep the rest of the clause
+			cx = dropLastresult(cx)
+			if cx == nil {
+				continue
+			}
 		}
-		t, err := env.Bool(c.Expr)
+		t, err := env.Bool(cx)
 		if err != nil {
 			e.unsupported = append(e.unsupported, fmt.Sprintf("%s: ensures of %s (%s:%d): %v", fr.prefix, short, c.File, c.Line, err))
 			continue
 		}
 		e.sc.emit("; assume ensures of " + short + ": " + c.Src)
 		fr.assumeHere(t)
-		e.noteFacts(env, c.Expr, fr.cur.reach)
+		e.noteFacts(env, cx, fr.cur.reach)
 	}
 	// a fresh slice result that never leaves the caller keeps its contents across calls to unknown code
 	if rv, ok := fr.curInstrValue(); ok {
@@ -1913,4 +1918,49 @@ func (fr *Frame) assumeAtCall(calleeName string) {
 		fr.e.noteFacts(env, c.Expr, fr.cur.reach)
 		fr.e.assume("rely condition in " + fr.prefix + " [" + labelOr(c) + "]: " + c.Src)
 	}
+}
+
+func mentionsLastresult(x *Expr) bool {
+	if x == nil {
+		return false
+	}
+	if x.Op == "call" && x.Name == "lastresult" {
+		return true
+	}
+	for _, a := range x.Args {
+		if mentionsLastresult(a) {
+			return true
+		}
+	}
+	return false
+}
+
+// dropLastresult removes, from a formula used as an assumption, the conjuncts (under && and on the right of ==>) that
+// mention lastresult(...); nil if nothing is left.
+func dropLastresult(x *Expr) *Expr {
+	if !mentionsLastresult(x) {
+		return x
+	}
+	if x.Op == "binary" && x.Name == "&&" {
+		l, r := dropLastresult(x.Args[0]), dropLastresult(x.Args[1])
+		switch {
+		case l == nil:
+			return r
+		case r == nil:
+			return l
+		}
+		c := *x
+		c.Args = []*Expr{l, r}
+		return &c
+	}
+	if x.Op == "binary" && x.Name == "==>" && !mentionsLastresult(x.Args[0]) {
+		r := dropLastresult(x.Args[1])
+		if r == nil {
+			return nil
+		}
+		c := *x
+		c.Args = []*Expr{x.Args[0], r}
+		return &c
+	}
+	return nil
 }
